@@ -2,8 +2,10 @@ pub mod c01;
 pub mod c02;
 pub mod c03;
 pub mod c07;
+pub mod c09;
 pub mod c10;
 pub mod c12;
+pub mod c17;
 use crate::check::Prop;
 pub fn all() -> Vec<Box<dyn Prop>> {
     vec![
@@ -12,8 +14,10 @@ pub fn all() -> Vec<Box<dyn Prop>> {
         Box::new(c03::C03),
         Box::new(c07::C07),
         Box::new(c07::C08),
+        Box::new(c09::C09),
         Box::new(c10::C10),
         Box::new(c03::C11),
         Box::new(c12::C12),
+        Box::new(c17::C17),
     ]
 }
